@@ -60,6 +60,17 @@ func (s *Scope) fn(params []Binding) *Scope {
 	return n
 }
 
+// hideAll: all names stay visible for the program text (they shadow statics, they may
+// be redeclared in an inner function) but none is offered to the generator any more:
+// what is generated in this scope does not depend on anything declared outside.
+func (s *Scope) hideAll() *Scope {
+	n := &Scope{Frame: s.Frame, Nest: s.Nest}
+	for _, b := range s.Vars {
+		n.Vars = append(n.Vars, Binding{b.Name, "hidden"})
+	}
+	return n
+}
+
 func (s *Scope) ofType(t Ty) []string {
 	var out []string
 	seen := map[string]bool{}
@@ -102,6 +113,7 @@ type Gen struct {
 	tokens   int
 	failOK   bool
 	inCallee int
+	closed   int
 	// statistics of what was generated
 	Stats map[string]int
 }
@@ -261,16 +273,27 @@ func (g *Gen) Expr(t Ty, sc *Scope, d int, letOK bool) *Expr {
 	case c < 41:
 		// immediately applied lambda with 1..3 parameters; the arguments are let-positions
 		k := 1 + g.n(3, "lamParams")
+		outer := sc
+		if g.C.Host && g.chance(40, "closedLam") {
+			// a closure that captures nothing, applied to values that do not depend on the
+			// arguments: the optimizer may take the whole call for a constant - unless
+			// something impure happens inside, maybe only in a nested closure
+			// (the names of this function body stay declared: only the values are hidden)
+			outer = sc.hideAll()
+			g.closed++
+			defer func() { g.closed-- }()
+			g.Stats["closed_lam_applied"]++
+		}
 		ps := g.freshNames(sc, k)
 		var bs []Binding
 		var args []*Expr
 		for _, p := range ps {
 			pt := g.pickArgType()
 			bs = append(bs, Binding{p, pt})
-			args = append(args, g.Expr(pt, sc, d-1, true))
+			args = append(args, g.Expr(pt, outer, d-1, true))
 		}
 		g.Stats["lam_applied"]++
-		body := g.Expr(t, sc.fn(bs), d-1, true)
+		body := g.Expr(t, outer.fn(bs), d-1, true)
 		return Call(Lam(ps, body), args...)
 	case c < 44:
 		// element of a list literal / member of a map literal: their items are let-positions
@@ -483,6 +506,12 @@ func (g *Gen) callee(t Ty, sc *Scope, d int) *Expr {
 func (g *Gen) genInt(sc *Scope, d int) *Expr {
 	c := g.n(100, "intProd")
 	switch {
+	case g.C.Host && g.closed == 0 && c >= 88 && c < 95:
+		return g.closedNest(sc, d)
+	case g.closed > 0 && c >= 75 && c < 95:
+		// inside a closure that captures nothing the host functions are called more often
+		g.Stats["host_call_in_closed_lam"]++
+		return SCall([]string{"pk", "ik", "ik"}[g.n(3, "hostClosed")], g.Expr(TInt, sc, d-1, true))
 	case c < 30:
 		op := []string{"+", "-", "*", "+", "-", "*", "%", "<<", ">>", "^"}[g.n(10, "iop")]
 		switch op {
@@ -575,6 +604,54 @@ func (g *Gen) genInt(sc *Scope, d int) *Expr {
 			return SCall([]string{"pk", "ik"}[g.n(2, "host")], g.Expr(TInt, sc, d-1, true))
 		}
 		return g.leaf(TInt, sc)
+	}
+}
+
+// closedNest: nested closures that capture nothing from the program (the whole
+// expression is argument independent), where the inner closure captures a parameter of
+// the outer one and calls a host function. Only the impure host function keeps the
+// optimizer from folding the expression.
+func (g *Gen) closedNest(sc *Scope, d int) *Expr {
+	g.closed++
+	defer func() { g.closed-- }()
+	g.Stats["closed_nest"]++
+	empty := sc.hideAll()
+	konst := func(s *Scope) *Expr { return g.Expr(TInt, s, d-3, false) }
+	p := g.freshNames(sc, 1)[0]
+	s1 := empty.fn([]Binding{{p, TInt}})
+	q := g.freshNames(s1, 1)[0]
+	if q == p {
+		q = p + "_"
+	}
+	s2 := s1.fn([]Binding{{q, TInt}})
+	inner := g.Expr(TInt, s2, d-2, false)
+	if g.chance(70, "nestHost") {
+		inner = SCall([]string{"ik", "ik", "pk"}[g.n(3, "nestHostFn")], inner)
+	}
+	body := Bin("+", Bin("*", Var(p), Var(q)), inner)
+	add := Lam([]string{"a", "b"}, Bin("+", Var("a"), Var("b")))
+	switch g.n(4, "nestShape") {
+	case 0:
+		return Call(Lam([]string{p}, Call(Lam([]string{q}, body), konst(s1))), konst(empty))
+	case 1:
+		in := MCall(MCall(List(konst(s1), konst(s1)), "map", Lam([]string{q}, body)), "mapReduce", Int(0), add)
+		return MCall(MCall(List(konst(empty), konst(empty), konst(empty)), "map", Lam([]string{p}, in)), "mapReduce", Int(0), add)
+	case 2:
+		return Call(Call(Lam([]string{p}, Lam([]string{q}, body)), konst(empty)), konst(empty))
+	default:
+		// a recursive function that captures nothing
+		fname := g.freshName(sc, "nestFunc")
+		if fname == p {
+			fname = p + "_f"
+		}
+		fs := empty.with(Binding{fname, "self"}, false).fn([]Binding{{p, TInt}})
+		step := g.Expr(TInt, fs, d-3, false)
+		if g.chance(70, "nestHostRec") {
+			step = SCall("ik", step)
+		}
+		fbody := If(Bin("<=", Var(p), Int(0)), Int(g.n(4, "nestBase")), Bin("+", step, Call(Var(fname), Bin("-", Var(p), Int(1)))))
+		// (a list item is a let-position: the func statement may stand there)
+		return Index(List(Func(fname, []string{p}, fbody, Call(Var(fname), Int(g.n(4, "nestDepth"))))), Int(0))
 	}
 }
 
